@@ -77,5 +77,10 @@ void set_invariant(void (*fn)());
 [[noreturn]] void fail(const std::string &sig, const std::string &msg);
 inline void check(bool ok, const std::string &sig, const std::string &msg) { if (!ok) fail(sig, msg); }
 vf::Ctx &ctx();
+// Also place a scheduling point AFTER every mutex unlock (default off). For data-race-free code points
+// before synchronisation operations suffice; with this on, plain accesses that follow an unlock can be
+// separated from it, so a mutator that drops the lock too early shows up as a wrong outcome or a crash in
+// the exhaustive search and not only in the ThreadSanitizer side pass. Reset by begin().
+void set_post_release_points(bool on);
 
 }  // namespace vfs
